@@ -19,6 +19,9 @@ ASSUMPTIONS = ['shares are read at the end of the run (values are immutable once
                'secure integers only in this module; field/fixed-point sharings are interpolated in C04/C02']
 
 
+TIMEOUT_INCONCLUSIVE = True  # hangs are decided by quiescence in the simulator, not by the wall clock
+
+
 def budget(tier):
     return dict(shards=16, examples=80 if tier == 'quick' else 600)
 
